@@ -29,7 +29,7 @@ ASSUMPTIONS = [
 
 
 def counts(tier: str):
-    return (250, 75.0) if tier == 'quick' else (15000, 900.0)
+    return (1000, 75.0) if tier == 'quick' else (15000, 900.0)
 
 
 def generate(rng, tier: str, index: int) -> dict:
